@@ -2127,6 +2127,53 @@ def adoption_order_table(repo, run, rule):
         run.ok(rule, mc, 'adoption order (%d rows)' % rows, 'fields stored first, then pushed down; propagation exactly for the fields handed over')
 
 
+def adoption_keeps_own_priority(repo, run, rule):
+    """ComposedNode.ayns.set_child evaluated down to the metaclass branch that adopts an already built node (the two propagation
+    methods are recording stand-ins): merging attaches the nodes of later stages through set_child, so an already built node must
+    come out with the priority it was written with - whatever explicit priority the receiving container carries - and its
+    descendants are not re-stamped"""
+    fi = repo.func('ComposedNode.ayns.set_child')
+    mc = repo.func('ConfigNodeMeta.__call__')
+    bad = []
+    rows = 0
+    for cp in (None, 1, -1):
+        for vp in (None, 1, -1):
+            if cp is None and vp is None and rows:
+                continue
+            me = node_obj('cont', 'ConfigDict', _children={}, _priority=cp, _default_delete=False, _default_allow_new=True)
+            value = node_obj('value', 'ConfigDict', _children={'c': node_obj('c')}, _priority=vp)
+            pushed = []
+
+            def ctor(*a, **k):
+                # (the evaluator hands constructor arguments over by position; the metaclass looks at them by name)
+                names = repo.resolve('ConfigNode', '__init__').params()[1:]
+                k = dict(k, **dict(zip(names[1:], a[1:])))
+                a = a[:1]
+                f2 = FDE(repo, stubs={'_propagate_priority', '_propagate_implicit_values'}, stub=lambda n, recv, a_, k_: pushed.append(n) if recv is value else None)
+                r2 = f2.call(mc, ('class', 'ConfigNode'), *a, **k)
+                if r2.raised:
+                    raise Raised(r2.raised)
+                return r2.ret
+            f = FDE(repo, stubs={'_propagate_priority', '_propagate_implicit_values'}, stub=lambda n, recv, a_, k_: None, max_depth=8)
+            f.constructors = {'ConfigNode': ctor}
+            r = fde_guard(lambda: f.call(fi, me, 'k', value))
+            rows += 1
+            what = 'a node written with priority %r attached to a container with explicit priority %r' % (vp, cp)
+            if r.raised:
+                bad.append('%s: raises %s' % (what, r.raised))
+            elif me.f['_children'].get('k') is not value:
+                raise AnalysisError('%s: %s: the attached node was not found in the child map' % (rule, what))
+            elif value.f.get('_priority') != vp:
+                bad.append('%s comes out with priority %r: it no longer wins / loses against later stages as written' % (what, value.f.get('_priority')))
+            elif '_propagate_priority' in pushed:
+                bad.append('%s: the priority is pushed down to its descendants again' % what)
+    run.table(rule, rows, 'container priority x priority of the attached node')
+    if bad:
+        run.violation(rule, fi, 'priority of an attached node', bad[0] + (' [%d rows]' % len(bad) if len(bad) > 1 else ''), witness=bad[:4])
+    else:
+        run.ok(rule, fi, 'attached nodes keep their own priority (%d rows)' % rows)
+
+
 def add_multiple_sources_table(repo, run, rule):
     """Builder.add_multiple_sources evaluated (add_source is a recording stand-in): source i is added with the i-th raw_yaml /
     filename / safe value when a sequence is given and with the single value when a scalar is given (a string counts as a scalar);
